@@ -193,7 +193,7 @@ func (c *checker) recoverCrash(ph phase, seed uint64, class, msg string) json.Ra
 	if doc == nil {
 		die2("phase %s: seed %d: no replay record in the diagnostic stream", ph.Name, seed)
 	}
-	if o.Summary != nil && o.Violation == nil {
+	if o.Summary != nil && o.Violation == nil && ph.Mode != "race" {
 		die2("phase %s: seed %d killed the engine process (%s: %s) but ran clean when repeated alone — not reproducible, refusing to report", ph.Name, seed, class, msg)
 	}
 	if len(tape) > 0 {
@@ -463,6 +463,20 @@ func runReplay(path string) int {
 	ph, ok := plan.phase(phName, tier)
 	if !ok {
 		die2("replay file names unknown phase %q", phName)
+	}
+	if phName == "fidelity" {
+		info, err := ensureBuild(nil)
+		if err != nil {
+			die2("%v", err)
+		}
+		pol, _ := doc["policy"].(string)
+		if strings.HasPrefix(info.Fidelity[pol], "FAIL") {
+			fmt.Printf("replay: the repository's tests fail inside the instrumented copy under map order %s\n%s\n", pol, tail(info.Fidelity[pol], 3000))
+			fmt.Printf("VIOLATION property=%s replay=%s\n", prop, path)
+			return 1
+		}
+		fmt.Println("replay: the repository's tests pass under map order " + pol)
+		return 0
 	}
 	info, err := ensureBuild([]string{ph.Build})
 	if err != nil {
